@@ -44,17 +44,23 @@ def drv(text, snames, fields):
     return lib, lib0, exp
 
 
-def build(eng, n_before, n_after, shapes, kl, second=None):
+def drv_two(text1, text2, snames, fields):
+    """two documents parsed one after the other in the same process: the second must be resolved on its own"""
+    bibtexparser.parse_string(text1)
+    return drv(text2, snames, fields)
+
+
+def build(eng, n_before, n_after, shapes, kl, second=None, pfx="t"):
     cs = []
 
     def lit(s):
         for ch in s:
-            cs.append(eng.sym_char(f"t{len(cs)}", ch))
+            cs.append(eng.sym_char(f"{pfx}{len(cs)}", ch))
 
     def hole():
         a = len(cs)
         for _ in range(kl):
-            cs.append(eng.sym_char(f"t{len(cs)}", KS))
+            cs.append(eng.sym_char(f"{pfx}{len(cs)}", KS))
         return mk(cs[a:])
 
     snames = []
@@ -155,17 +161,24 @@ def native(text, snames, fields, own, order):
     return all(bool(c) for c in conds), exp, [(f.key, f.value) for b in lib.blocks if isinstance(b, M.Entry) for f in b.fields]
 
 
-def task(n_before, n_after, shapes, kl, label, second=None):
+def task(n_before, n_after, shapes, kl, label, second=None, earlier=None):
     eng = Engine()
     rec = Recorder(eng)
+    text0 = None
+    if earlier is not None:
+        text0 = build(eng, earlier[0], earlier[1], ("bare",), 1, None, pfx="p")[0]
     text, snames, fields, own, order = build(eng, n_before, n_after, shapes, kl, second)
     E = eng.I.models.eq_simple
-    worlds = eng.run(drv, [text, snames, fields])
+    worlds = eng.run(drv, [text, snames, fields]) if text0 is None else eng.run(drv_two, [text0, text, snames, fields])
 
     def rp(m):
         mv = lambda x: eng.model_value(m, x)
         t = eng.model_str(m, text)
         try:
+            if text0 is not None:
+                import logging
+                logging.disable(logging.CRITICAL)
+                bibtexparser.parse_string(eng.model_str(m, text0))
             ok, exp, got = native(t, mv(snames), [[tuple(mv(list(f))) for f in ef] for ef in fields], mv(own), order)
         except Exception as e:  # noqa
             return {"input": t, "observed": f"raised {type(e).__name__}: {e}", "expected": "library"}
@@ -209,6 +222,11 @@ def main():
                 chk.add_task(name + "-k1", task, n_before=nb, n_after=na, shapes=shapes, kl=1, label=name)
                 if nf == 1 or chk.tier == "thorough":
                     chk.add_task(name + "-k2", task, n_before=nb, n_after=na, shapes=shapes, kl=2, label=name)
+    # a document parsed after another one in the same process (no state may survive between calls)
+    for nb, na in ((1, 0), (0, 1), (0, 0), (2, 0)):
+        for enb, ena in ((1, 0), (0, 1)):
+            name = f"after-b{enb}a{ena}-then-b{nb}a{na}"
+            chk.add_task(name, task, n_before=nb, n_after=na, shapes=("bare",), kl=1, label=name, earlier=(enb, ena))
     # two entries: the recorded resolved keys are per entry
     for nb, na in ((1, 0), (0, 1), (2, 0)):
         for shapes in (("bare",), ("bare", "bare"), ("braced",)):
